@@ -138,6 +138,18 @@ TEXT = {
   "note": "Lean kernel; partial: Mutex semantics and absence of data races outside the lock are trusted.",
   "technique": "Lean 4 theorem (section-wise invariants, induction over all schedules) + differential correspondence under a deterministic scheduler",
  },
+ "C04": {
+  "level": "Theorems (process death): recover_facts - from EVERY disk, a launch that selects n found a readable state of this release, n in one of the three slots, its artifact "
+           "validates, and n was not the patch booting at death; crash_safe - for a launch [init ; any call, any server behaviour] started from ANY storage directory and killed "
+           "anywhere before, between or in the middle of the rewrites of the two state files, with ANY contents of patches/ at that moment, the next launch of this release selects "
+           "nothing or a patch that validates, was recorded before the interrupted launch in a readable state of this release (or is the one being installed), and was not booting "
+           "at death; crash_safe_not_banned with C02's invariant. Tie: the real library is killed by an LD_PRELOAD interposer immediately before (or half-way through) its k-th "
+           "mutating file-system call, for every k of the launch; the state files at death must be one of the model's crash states, a real re-launch follows, and the same "
+           "predicate (crashChecks) judges what it selects.",
+  "design_ref": "DESIGN.md section 4, C04",
+  "note": "partial: the property's second sentence (single I/O error, execution continues) is exercised on the real library (interposer mode eio, thorough tier) but not covered by a theorem; durability below the system-call level (no fsync) is outside the model; 'not banned before' is proved for previously recorded patches, for the patch being installed it rests on the correspondence.",
+  "technique": "Lean 4 theorem (save-event semantics of every critical section, all crash points, arbitrary artifact directory) + system-call-level crash injection on the real library",
+ },
  "C09": {
   "level": "Theorem C09_holds: for every history whose effective inits configure one public key, the C09 monitor accepts the model trace - after an update "
            "reports n installed, n is the next-boot patch (installed_is_next, every disk); and once every record of number n matches the artifact in place, n stays "
